@@ -876,6 +876,17 @@ class Interp:
                 src_ = args[0]
                 if isinstance(src_, Ref) and h.objs[src_.name]['__class__'] == 'dict':
                     pairs = list(h.objs[src_.name]['entries'])
+                elif isinstance(src_, Ref) and h.objs[src_.name]['__class__'] in h.module.classes and (
+                        h.module.method(h.objs[src_.name]['__class__'], 'keys') is not None or '.keys' in h.hooks or
+                        (h.module.method(h.objs[src_.name]['__class__'], '__getitem__') is not None and h.module.method(h.objs[src_.name]['__class__'], '__iter__') is not None)):
+                    # a mapping object of the package: dict(m) reads m.keys() (or iterates m) and m[key]
+                    cn_ = h.objs[src_.name]['__class__']
+                    km_ = h.module.method(cn_, 'keys') or h.module.method(cn_, '__iter__')
+                    gi_ = h.module.method(cn_, '__getitem__')
+                    if gi_ is None:
+                        raise AnalysisError('heap model: dict() of %s' % cn_)
+                    keys_ = self.seq(self.call(Closure(km_.node, {}, src_, km_.cls), []))
+                    pairs = [(k_, self.call(Closure(gi_.node, {}, src_, gi_.cls), [k_])) for k_ in keys_]
                 else:
                     pairs = []
                     for it_ in self.seq(src_):
